@@ -783,18 +783,10 @@ func (g *generator) declareStringConstraints(v cue.Value) ([]ast.TypeConstraint,
 	return constraints, nil
 }
 
-func (g *generator) declareNumber(v cue.Value, defVal any, hints ast.JenniesHints) (ast.Type, error) {
-	numberTypeWithConstraintsAsString, err := format.Node(v.Syntax())
-	if err != nil {
-		return ast.Type{}, err
-	}
-	parts := strings.Split(string(numberTypeWithConstraintsAsString), " ")
-	if len(parts) == 0 {
-		return ast.Type{}, errorWithCueRef(v, "something went very wrong while formatting a number expression into a string")
-	}
-
-	// dirty way of preserving the actual type from cue
-	// note that CUE has predefined "types": https://cuelang.org/docs/tutorials/tour/types/bounddef/
+// numberTypeFromExpression looks for the name of a number type among the words of an expression.
+// dirty way of preserving the actual type from cue
+// note that CUE has predefined "types": https://cuelang.org/docs/tutorials/tour/types/bounddef/
+func numberTypeFromExpression(parts []string) ast.ScalarKind {
 	var numberType ast.ScalarKind
 	for _, numberTypeCandidate := range parts {
 		switch ast.ScalarKind(numberTypeCandidate) {
@@ -813,6 +805,33 @@ func (g *generator) declareNumber(v cue.Value, defVal any, hints ast.JenniesHint
 		case "number":
 			numberType = ast.KindFloat64
 		}
+	}
+
+	return numberType
+}
+
+func (g *generator) declareNumber(v cue.Value, defVal any, hints ast.JenniesHints) (ast.Type, error) {
+	numberTypeWithConstraintsAsString, err := format.Node(v.Syntax())
+	if err != nil {
+		return ast.Type{}, err
+	}
+	parts := strings.Split(string(numberTypeWithConstraintsAsString), " ")
+	if len(parts) == 0 {
+		return ast.Type{}, errorWithCueRef(v, "something went very wrong while formatting a number expression into a string")
+	}
+
+	// dirty way of preserving the actual type from cue
+	// note that CUE has predefined "types": https://cuelang.org/docs/tutorials/tour/types/bounddef/
+	numberType := numberTypeFromExpression(parts)
+	if numberType == "" && !v.IsConcrete() {
+		// a reference to a definition (`#Pos & <10`) is printed as a reference: the
+		// evaluated value is printed as what it stands for
+		evaluated, err := format.Node(v.Eval().Syntax())
+		if err != nil {
+			return ast.Type{}, err
+		}
+
+		numberType = numberTypeFromExpression(strings.Split(string(evaluated), " "))
 	}
 
 	// the heuristic above will likely fail for concrete numbers, so let's handle them explicitly
@@ -880,7 +899,9 @@ func (g *generator) declareNumberConstraints(v cue.Value, numberType ast.ScalarK
 		v = dvals[0]
 	}
 
-	numberTypeWithConstraintsAsString, err := format.Node(v.Syntax())
+	// the evaluated value: a reference to a definition (`#Pos & <10`, `#Pos | *5`) is
+	// printed as the bounds it stands for
+	numberTypeWithConstraintsAsString, err := format.Node(v.Eval().Syntax())
 	if err != nil {
 		return nil, err
 	}
